@@ -13,7 +13,7 @@ def build_inputs(c, t, rng):
     """returns list of (label dict, raw bytes)"""
     inputs = []
     valid = reqgen.valid_requests(t, rng)
-    per = 40 if c.quick else 700
+    per = 110 if c.quick else 1500
     for r in valid:
         inputs.append(({"route": r.route, "el": "none", "kind": "valid"}, r.bytes()))
         for kind, el, raw in reqgen.mutations(r, rng, per):
@@ -21,7 +21,7 @@ def build_inputs(c, t, rng):
     for label, raw in reqgen.special_inputs(rng, c.quick):
         inputs.append(({"route": "special", "el": label.split(":")[0], "kind": label}, raw))
     # a larger (documented, configurable) request buffer admits more header lines in one read
-    for buf, n in ((100000, 20000), (100000, 49000), (50000, 12000)) if c.quick else ((100000, 20000), (100000, 49000), (50000, 12000), (30000, 14000), (1000000, 400000), (20000, 9000)):
+    for buf, n in ((100000, 20000), (100000, 49000), (50000, 12000)) if c.quick else ((100000, 20000), (100000, 49000), (50000, 12000), (30000, 14000), (200000, 60000), (20000, 9000)):
         inputs.append(({"route": "special", "el": "bigbuf-many-header-lines", "kind": "bigbuf-many-header-lines:%d:%d" % (buf, n), "bufsize": buf}, b"GET / HTTP/1.1\r\n" + b"a\n" * n))
         inputs.append(({"route": "special", "el": "bigbuf-valid", "kind": "bigbuf-valid:%d" % buf, "bufsize": buf}, b"GET / HTTP/1.1\r\nHost: x\r\nX-Pad: " + b"p" * (buf // 2) + b"\r\n\r\n"))
     return inputs
@@ -41,7 +41,7 @@ def judge(c, label, raw, sv, entry, lane, handler, case=None):
     if sv.n_writes == 0 or len(sv.accepted) == 0:
         c.violation("C04:no-response:%s:%s" % (entry, label["el"]), "no bytes written for input %r..." % raw[:80], {"request_b64": __import__("base64").b64encode(raw[:20000]).decode(), "label": label})
         return
-    resp, errs = oracles.one_response(sv.accepted, method if klass != "malformed" else "GET")
+    resp, errs = oracles.one_response(sv.accepted, None, raw_request=raw, bufsize=label.get("bufsize", 10000))
     if errs:
         e0 = re.sub(r"\d+", "N", errs[0])[:80]
         c.violation("C04:not-one-complete-response:%s:%s" % (entry, e0), "bytes written are not exactly one well-formed response: %s (input %r...)" % (errs[:2], raw[:80]),
@@ -203,7 +203,7 @@ def judge_b(c, label, raw, data, end, s, lane, threads, check_process=True):
         else:
             c.count("empty_responses_in_concurrent_mode")
         return
-    resp, errs = oracles.one_response(data, method if klass != "malformed" else "GET")
+    resp, errs = oracles.one_response(data, None, raw_request=raw)
     c.seen("engine B: response from the shipped binary")
     if errs and not (len(raw) > 10000 and end == "reset"):
         e0 = re.sub(r"\d+", "N", errs[0])[:80]
